@@ -53,7 +53,8 @@ var (
 func LexerOptions(profile int) []participle.Option {
 	switch profile {
 	case ProfStateful:
-		return []participle.Option{participle.Lexer(defP1), participle.Elide("WS", "Comment")}
+		// two Elide options: the elision set is the union of all of them
+		return []participle.Option{participle.Lexer(defP1), participle.Elide("WS"), participle.Elide("Comment")}
 	case ProfLower:
 		return []participle.Option{participle.Lexer(defP2)}
 	case ProfScanCfg:
